@@ -225,11 +225,16 @@ class FixedMarginBusiness(Sector):
             self.AddVariable('DEM_' + self.LabourInputName, 'Demand for labour',
                              '%s * %s' % (format_parameter(wage_share, '%0.3f'), market_sup_good))
             self.SetEquationRightHandSide('PROF', '%s * %s' % (format_parameter(self.ProfitMargin, '%0.3f'), market_sup_good))
-        for s in self.Parent.SectorList:
-            # The recipient is a sector that declares dividends without being a business itself (a business
-            # acquires a 'DIV' variable of its own once it pays dividends).
-            if s.ID == self.ID or isinstance(s, FixedMarginBusiness):
-                continue
+        # The recipient is a sector that declares dividends without being a business itself (a business
+        # acquires a 'DIV' variable of its own once it pays dividends).
+        recipients = [s for s in self.Parent.SectorList
+                      if s.ID != self.ID and not isinstance(s, FixedMarginBusiness)
+                      and 'DIV' in s.EquationBlock.Equations]
+        if len(recipients) > 1:
+            # Picking the first one would make the model depend on the order in which sectors were created.
+            raise LogicError('More than one sector can receive the dividends of {0}: {1}'.format(
+                self.Code, ', '.join([s.Code for s in recipients])))
+        for s in recipients:
             if 'DIV' in s.EquationBlock.Equations:
                 Logger('Adding dividend flow', priority=5)
                 self.AddCashFlow('-DIV', 'PROF', 'Dividends paid', is_income=False)
